@@ -22,11 +22,16 @@ for c in corpus:
         if c.get('benign'):
             res.append({'name':c['name'],'status':'benign-quiet' if r.returncode==0 else 'benign-ALARM'})
         else:
-            res.append({'name':c['name'],'status':'caught' if r.returncode==1 else 'MISSED'})
+            if r.returncode==1:
+                res.append({'name':c['name'],'status':'caught'})
+            else:
+                # clauses marked [slow] are proved by the thorough tier only
+                r2=subprocess.run(['/verif/bin/vcheck','check',prop,'--repo',copy,'--tier','thorough'],cwd='/verif',env=env,capture_output=True,text=True)
+                res.append({'name':c['name'],'status':'caught-thorough' if r2.returncode==1 else 'MISSED'})
     finally:
         open(p,'w').write(s)
-summ={'property':prop,'mutants':sum(1 for r in res if r['status'] in('caught','MISSED')),
-      'caught':sum(1 for r in res if r['status']=='caught'),
+summ={'property':prop,'mutants':sum(1 for r in res if r['status'] in('caught','caught-thorough','MISSED')),
+      'caught':sum(1 for r in res if r['status'] in('caught','caught-thorough')),
       'benign':sum(1 for r in res if r['status'].startswith('benign')),
       'benign_quiet':sum(1 for r in res if r['status']=='benign-quiet'),'entries':res}
 print(json.dumps(summ,indent=1))
